@@ -24,7 +24,7 @@ theorem process_flat_dir {σ} (pre : Entry → σ → Outcome Unit × σ) (hO : 
     process snap o pre st x w = (none, { st with deferred := x :: st.deferred }, w) := by
   unfold process
   simp only [hst, List.length_nil, hO.maxDepth, Nat.lt_irrefl, if_false, List.any_nil, Bool.false_eq_true, and_false,
-    ite_self, hO.minDepth, hO.cf, hd, and_self, if_true]
+    ite_self, hO.minDepth, hO.cf, hd, and_self, if_true, hO.files, hO.dirs, false_and, or_self]
 
 theorem process_flat_leaf {σ} (pre : Entry → σ → Outcome Unit × σ) (hO : FlatCf o) (st : ISt) (hst : st.iters = [])
     {x : Entry} (hd : x.dir = false) (w : σ) :
